@@ -3,7 +3,10 @@ import TextxVerif.GramLoad
 /-! Driver for the grammar-loading model (C23).
 ops:
   {"op":"grammar_outcome","g":G,"langs":{name:[class…]|null}} → {"out":O,"alts":[O…]}
+      + "bad_param": Grammar.hasBadParam, "unregistered": Grammar.hasUnregistered, "has_reference": Grammar.hasReference
+        (the syntactic conditions of C23_classified: a TextXError / TextXRegistrationError of the implementation needs them)
   {"op":"parse_failed"}                                        → {"out":"syntax","alts":["syntax"]}
+  {"op":"isa_table"}  → {"table":{Class:{Handler:bool}}}   PyExc.isa for every class and handler (compared with issubclass)
 G    = {"stms":[["imp"]|["ref",lang,alias|null]…],"rules":[R…]}            (at least one rule)
 R    = {"n":name,"p":null|[[name,value|null]…],"b":C}
 C    = [S…] (≥1)   S = [X…] (≥1)   X = {"e":E,"r":null|{"op":"*|?|+|#","m":null|[Mod…]},"s":bool}
@@ -148,6 +151,15 @@ def pyName : PyExc → String
   | .unicodeDecodeError => "UnicodeDecodeError" | .reError => "error"
   | .overflowError => "OverflowError" | .valueError => "ValueError" | .other => "Exception"
 
+def handlerName : Handler → String
+  | .exception => "Exception" | .valueError => "ValueError" | .keyError => "KeyError" | .reError => "error"
+
+def allPyExc : List PyExc :=
+  [.keyError, .attributeError, .typeError, .indexError, .recursionError, .assertionError, .unicodeDecodeError,
+   .reError, .overflowError, .valueError, .other]
+
+def allHandlers : List Handler := [.exception, .valueError, .keyError, .reError]
+
 def outName : M Unit → String
   | .ok _ => "ok"
   | .error .syntax => "syntax"
@@ -168,8 +180,14 @@ def handle (j : Json) : Json :=
         | .imp => true
       if !described then badOp else
       Json.mkObj [("out", outName (compile env g)),
-                  ("alts", toJson ((outcomes env g).map outName).eraseDups)]
+                  ("alts", toJson ((outcomes env g).map outName).eraseDups),
+                  ("bad_param", toJson g.hasBadParam),
+                  ("unregistered", toJson (g.hasUnregistered env)),
+                  ("has_reference", toJson g.hasReference)]
     | _, _ => badOp
+  | some "isa_table" =>
+    Json.mkObj [("table", Json.mkObj (allPyExc.map fun e =>
+      (pyName e, Json.mkObj (allHandlers.map fun h => (handlerName h, toJson (e.isa h))))))]
   | some "parse_failed" =>
     Json.mkObj [("out", outName parseFailed), ("alts", toJson [outName parseFailed])]
   | _ => badOp
